@@ -14,6 +14,7 @@ from spec_classes.utils.mutation import (
     mutate_attr,
     prepare_attr_value,
     protect_via_deepcopy,
+    under_construction,
 )
 
 from .base import MethodDescriptor
@@ -501,7 +502,10 @@ class DeepCopyMethod(MethodDescriptor):
                 new.__dict__[attr] = protect_via_deepcopy(value, memo)
         __post_copy__ = getattr(new, "__post_copy__", None)
         if __post_copy__:
-            __post_copy__()
+            # The hook finishes building the copy (as `__post_init__` does for
+            # a new instance), so it may assign also when the class is frozen.
+            with under_construction(new):
+                __post_copy__()
         return new
 
     def build_method(self) -> Callable:
